@@ -42,6 +42,7 @@ def check(ctx):
     ctx.analysed_files.add(DC)
     ctx.rule("C15-R4", "the parallel and antiparallel bulge tests are mirror images with the DSSP gap thresholds (< 6 / < 3, or < 3)")
     r4_bulge(ctx, cf)
+    r4_live_extents(ctx, cf)
     ctx.rule("C15-R5", "minimal n-helices: two consecutive n-turns at i-1 and i mark residues i .. i+n-1; a conditional marking scans exactly the span it writes; order H, G, I; loop bounds keep reads and writes inside the chain array")
     r5_helix_spans(ctx, cf)
 
@@ -129,6 +130,48 @@ def check(ctx):
     strides = [n for n in C.walk(ah) if n["kind"] == "ForStmt" and "stride" in C.text(C.kids(n)[1])]
     ok = bool(strides) and re.sub(r"\s", "", C.text(C.kids(strides[0])[1])) == "(stride<=5)"
     ctx.decide(ok, "C15-R3", C.line(strides[0]) if strides else C.line(ah), DC, "calculate_alpha_helices", "turn lengths 3, 4, 5", "", "stride loop bounds changed")
+
+
+def r4_live_extents(ctx, cf):
+    """Ladders grow while they are merged (bridges[i].i / .j get the residues of bridges[j] appended): a local that holds something read from
+    an element of `bridges` must be read again after that element has been changed.  For every loop of calculate_beta_sheets that contains a
+    mutation of bridges[x].<field> (insert / push_back / erase / assign ...), every local initialised from bridges[x] that is used inside the
+    loop is declared inside it too - otherwise the second and later iterations compare the extent the ladder had before the merge (a ladder
+    with two bulges is then cut in two)."""
+    fn = cf.function(DC, "calculate_beta_sheets")
+    MUT = {"insert", "push_back", "emplace_back", "erase", "assign", "clear", "pop_back", "resize", "swap", "push_front", "pop_front"}
+    loops = [n for n in C.walk(fn) if n["kind"] in ("ForStmt", "WhileStmt", "DoStmt", "CXXForRangeStmt")]
+    inside = {id(l_): {id(x) for x in C.walk(l_)} for l_ in loops}
+    elem = re.compile(r"(\w+)\[(\w+)\]\.(\w+)")
+    decls = []
+    for v in C.walk(fn):
+        if v["kind"] == "VarDecl" and C.kids(v):
+            m = next((m_ for x_ in C.walk(C.kids(v)[-1]) for m_ in [elem.search(re.sub(r"\s", "", C.text(x_)))] if m_), None)
+            if m:
+                decls.append((v, m.group(1), m.group(2)))
+    muts = []
+    for c in C.walk(fn):
+        if c["kind"] == "CXXMemberCallExpr" and C.callee_name(c) in MUT:
+            obj = C.kids(C.strip(C.kids(c)[0]))
+            m = elem.match(re.sub(r"\s", "", C.text(obj[0]))) if obj else None
+            if m:
+                muts.append((c, m.group(1), m.group(2)))
+    if not muts or not decls:
+        raise AnalysisError("calculate_beta_sheets: ladder merging (%d mutations of an element of a vector, %d locals read from one) not found" % (len(muts), len(decls)))
+    bad = []
+    for (c, arr, idx) in muts:
+        for l_ in loops:
+            if id(c) not in inside[id(l_)]:
+                continue
+            for (v, arr2, idx2) in decls:
+                if (arr2, idx2) != (arr, idx) or id(v) in inside[id(l_)]:
+                    continue
+                used = [x for x in C.walk(l_) if x["kind"] == "DeclRefExpr" and x.get("referencedDecl", {}).get("id") == v.get("id")]
+                if used:
+                    bad.append((v.get("name"), C.line(v), C.line(c), C.line(l_)))
+    ctx.decide(not bad, "C15-R4", C.line(fn), DC, "calculate_beta_sheets", "ladder extents compared in the merge loop are read after the merges that change them (%d merges, %d locals)" % (len(muts), len(decls)), "",
+               "; ".join("`%s` (line %s) is read from the ladder before the loop at line %s, in which the ladder grows (line %s): later iterations compare the extent the ladder had before the merge"
+                         % (n_, lv, ll, lc) for n_, lv, lc, ll in bad[:2]))
 
 
 def r4_bulge(ctx, cf):
